@@ -773,6 +773,22 @@ def check_operation(inp):
                     out.append(Mx[0, 0])
                 return np.array(out, dtype=complex)
             rhs = np.vdot(dense_bond(Y), M @ dense_bond(X))
+        elif kind == 'mixed':
+            chi = _obj_from_json(inp['chi'], 'mps')
+            objs = [psi, chi, H]; snap = _snapshot(objs)
+            bl = np.array([[[1]]], dtype=complex)
+            for k in range(i):
+                bl = OP.contraction_operator_step_left(psi.A[k], chi.A[k], H.A[k], bl)
+            br = np.array([[[1]]], dtype=complex)
+            for k in reversed(range(i + 1, L)):
+                br = OP.contraction_operator_step_right(psi.A[k], chi.A[k], H.A[k], br)
+            X = rnd(psi.A[i].shape, 'X'); Y = rnd(chi.A[i].shape, 'Y')
+            HX = OP.apply_local_hamiltonian(bl, br, H.A[i], X)
+            if HX.shape != Y.shape:
+                return [f'local operator maps to shape {HX.shape}, expected {Y.shape}']
+            lhs = np.vdot(Y, HX)
+            AX = list(psi.A); AX[i] = X; AY = list(chi.A); AY[i] = Y
+            rhs = np.vdot(np.array(DN.dense_mps(AY), dtype=complex), M @ np.array(DN.dense_mps(AX), dtype=complex))
         elif kind == 'steps':
             chi = _obj_from_json(inp['chi'], 'mps')
             T = np.array([[1]], dtype=complex)
@@ -1528,7 +1544,13 @@ def main():
     kind = body['kind']
     inputs = decode(body['inputs'])
     warnings.simplefilter('ignore')
-    fails = CHECKS[kind](inputs)
+    try:
+        fails = CHECKS[kind](inputs)
+    except Exception as e:        # a crash of the checker itself is not a reproduction
+        import traceback
+        traceback.print_exc()
+        print(f'replay {path}: internal error of the concrete checker ({type(e).__name__}: {e})')
+        sys.exit(3)
     if fails:
         print(f'replay {path}: property {body.get("property")} violated on the real code ({kind}):')
         for f in fails[:10]:
